@@ -60,7 +60,7 @@ pub fn upper_ident(rng: &mut Rng) -> String {
 }
 
 pub fn qualified(rng: &mut Rng, min: usize, max: usize) -> Vec<String> {
-    let n = rng.range(min, max);
+    let n = if rng.chance(1, 200) { *rng.pick(&[8usize, 16, 17, 32, 33, 64]) } else { rng.range(min, max) };
     (0..n).map(|_| ident(rng)).collect()
 }
 
@@ -280,7 +280,15 @@ pub fn arg(rng: &mut Rng, cfg: &GenCfg) -> Arg {
 }
 
 pub fn method(rng: &mut Rng, cfg: &GenCfg) -> Member {
-    let nargs = if cfg.big && rng.chance(1, 150) { rng.range(31, 70) } else { rng.below(cfg.max_args + 1) };
+    let nargs = if cfg.big && rng.chance(1, 150) {
+        if rng.chance(1, 4) {
+            *rng.pick(&[127usize, 128, 129, 255, 256, 257])
+        } else {
+            rng.range(31, 70)
+        }
+    } else {
+        rng.below(cfg.max_args + 1)
+    };
     let args: Vec<Arg> = (0..nargs).map(|_| arg(rng, cfg)).collect();
     Member::Method {
         anns: annotations(rng, cfg.ann_num, cfg.ann_den),
@@ -1006,6 +1014,11 @@ pub fn trivia_piece(rng: &mut Rng, style: LayoutStyle) -> String {
 }
 
 pub fn trivia(rng: &mut Rng, style: LayoutStyle) -> String {
+    if matches!(style, LayoutStyle::Wild | LayoutStyle::WildNoDoc) && rng.chance(1, 6000) {
+        // a very long line: a 66-140 KiB comment without a line break (columns beyond 65535)
+        let n = rng.range(66_000, 140_000);
+        return format!(" /* {} */ ", "long é ".repeat(n / 8));
+    }
     let n = match style {
         LayoutStyle::Minimal => 0,
         LayoutStyle::Spaces => 1,
